@@ -19,7 +19,15 @@ PKGS=$(git diff --name-only | xargs -n1 dirname | sort -u | sed 's|^|./|')
 mv "$DEMOPATH" /tmp/seedverify-demo.$$
 echo "touched packages: $PKGS ; demo: $DEMOPATH tests: $TESTS"
 A=0
-for p in $PKGS; do go test -count=1 -vet=off $p > /tmp/seedverify-a.$$ 2>&1 || A=1; tail -2 /tmp/seedverify-a.$$; done
+for p in $PKGS; do
+  go test -count=1 -vet=off $p > /tmp/seedverify-a.$$ 2>&1 || {
+    # pion's own suite has load-sensitive tests: name what failed and try once more before giving up
+    grep -E '^--- FAIL' /tmp/seedverify-a.$$ | head -5
+    echo "(retrying $p once)"
+    go test -count=1 -vet=off $p > /tmp/seedverify-a.$$ 2>&1 || { A=1; grep -E '^--- FAIL' /tmp/seedverify-a.$$ | head -5; }
+  }
+  tail -2 /tmp/seedverify-a.$$
+done
 if [ "$FULL" = full ]; then go test -count=1 -vet=off ./... > /tmp/seedverify-a.$$ 2>&1 || A=1; grep -v '^ok\|no test files' /tmp/seedverify-a.$$ | tail -5; fi
 mv /tmp/seedverify-demo.$$ "$DEMOPATH"
 go test -count=1 -vet=off -run "^($TESTS)\$" ./$DEMODIR > /tmp/seedverify-b.$$ 2>&1; B=$?
